@@ -125,7 +125,7 @@ def gen_enddef_cases(i0, version, EC, rng, tier):
     return cases
 
 
-def gen_access_case(i, version, rng, nprocs):
+def gen_access_case(i, version, rng, nprocs, far=False):
     """elements on both sides of 2^31 / 2^32 bytes in sparse files"""
     sc = Script()
     path = "s:@OUT@/big.nc"
@@ -134,11 +134,14 @@ def gen_access_case(i, version, rng, nprocs):
     mt = {1: "schar", 3: "short", 4: "int", 6: "double"}[xt]
     dt = cs.NATIVE[xt]
     total = rng.choice([2 ** 32 + 4096, 3 * 2 ** 31]) if version != 1 else 2 ** 31 + 4096      # bytes of the big variable
+    if far:
+        total = 3 * 2 ** 31 + 65536
     if version == 2:
         total = min(total, 2 ** 32 - 8) if rng.random() < 0.5 else total       # CDF-2: the last variable may exceed 2^32-4
     rows = 8
     ncol = total // xsz // rows
-    sc.add("*", "create", f=0, path=path, cmode=FMT_CMODE[version], info="nc_header_align_size:4;romio_ds_write:disable;romio_cb_write:disable")
+    aggr = ";nc_num_aggrs_per_node:1" if (nprocs > 1 and (far or rng.random() < 0.5)) else ""      # intra-node aggregation sorts and merges 64-bit offsets too
+    sc.add("*", "create", f=0, path=path, cmode=FMT_CMODE[version], info="nc_header_align_size:4;romio_ds_write:disable;romio_cb_write:disable" + aggr)
     sc.add("*", "def_dim", f=0, name="s:y", len=rows)
     sc.add("*", "def_dim", f=0, name="s:x", len=ncol)
     sc.add("*", "def_var", f=0, name="s:small", xtype=4, dimids="0", ndims=1)
@@ -156,17 +159,23 @@ def gen_access_case(i, version, rng, nprocs):
                 pts.append(lin)
     pts += [0, rows * ncol - 1, rng.randrange(rows * ncol)]
     pts = sorted(set(pts))
+    if far:
+        # few requests whose neighbours (in file order) lie between 2 and 4 GiB apart: offset differences that do not fit
+        # 32 bits, completed (and merged) by ONE collective wait across ranks
+        base = rng.choice([0, 3, 1000])
+        pts = sorted(set([base, base + (2 ** 32 - rng.choice([0, 8, 16, 4096])) // xsz, min(rows * ncol - 1, base + (2 ** 32 + 2 ** 31 + 8) // xsz)]))
+        pts = [x for x in pts if 0 <= x < rows * ncol]
     val = 1
     written = {}
     nb = 0
     order = list(pts)
     rng.shuffle(order)          # nonblocking requests are posted out of file order
-    use_nb = rng.random() < 0.5
+    use_nb = rng.random() < 0.5 or far
     for lin in order:
         y, x = divmod(lin, ncol)
         val = (val * 7 + 3) % 100 + 1
         raw = np.array([val]).astype(dt).tobytes().hex()
-        r = rng.randrange(nprocs)
+        r = rng.randrange(nprocs) if not far else (order.index(lin) % nprocs)
         form = rng.choice(["var1", "vara", "vars", "varn"])
         kw = dict(f=0, v=1, mt=mt, data="hex:" + raw)
         if form == "var1":
@@ -237,6 +246,9 @@ class C18(Check):
         n = 18 if tier == "quick" else 200
         for k in range(n):
             yield gen_access_case(i, [1, 2, 5, 5][k % 4], rng, rng.choice([1, 2]))
+            i += 1
+        for k in range(6 if tier == "quick" else 60):
+            yield gen_access_case(i, 5, rng, rng.choice([2, 3]), far=True)
             i += 1
 
     def features(self, res):
